@@ -1,1 +1,22 @@
-import UtilModel.Conc.Model
+import UtilModel.Conc.Props
+import UtilModel.Core.LTSHash
+open UtilModel UtilModel.Conc
+#print axioms UtilModel.accepts_sound
+#print axioms UtilModel.acceptsH_sound
+#print axioms UtilModel.accepted_satisfies
+#print axioms Conc.reachable_inv
+#print axioms Conc.active_le_limit
+#print axioms Conc.each_job_at_most_once
+#print axioms Conc.each_job_once
+#print axioms Conc.quiescent_queue_full
+#print axioms Conc.fifo_assignment
+#print axioms Conc.fifo_when_one
+#print axioms Conc.queued_pos_imp_full_state
+#print axioms Conc.queued_pos_imp_full
+#print axioms Conc.waitIdle_sound
+#print axioms Conc.invWI_records
+#print axioms Conc.waitIdle_parked_open
+#print axioms Conc.waitIdle_enabled
+#print axioms Conc.watch_parked_open
+#print axioms Conc.watch_stale_queued
+#print axioms Conc.quiescent_waiters
